@@ -23,6 +23,9 @@ import PyTough.Gen.Specs
 import PyTough.Proofs.InconRoundtrip
 import PyTough.Proofs.InconRewrite
 import PyTough.Proofs.InconFixpoint
+import PyTough.Proofs.InconMore1
+import PyTough.Proofs.InconMore2
+import PyTough.Proofs.InconMore3
 
 namespace Props.C13
 open Py Model Model.Incon Model.Names Proofs Proofs.Incon
@@ -320,10 +323,274 @@ example : NoPrecisionLost .fortran exIncon false := by
   · intro r hr; cases hr
     exact ⟨"1.000000000e-01".toList, by decide +kernel, by decide +kernel⟩
 
+/-! ### `NoPrecisionLost` as a condition on the VALUES -/
+
+/-- value class of a `20.13e` field (primary variables): the text `'%20.13e' % r` has at most 20
+    characters — every non-negative `r` whose printed exponent has at most three digits (every
+    non-negative double), every negative `r` whose printed exponent has two digits
+    (`printedExp 13 r`: the exponent `'%.13e' % r` prints, a function of the value) -/
+def Fits20_13 (r : Rat) : Prop :=
+  (0 ≤ r ∧ (printedExp 13 r).natAbs < 1000) ∨ (r < 0 ∧ (printedExp 13 r).natAbs < 100)
+
+/-- value class of a `15.9e` field (porosity, permeabilities, `tstart`, `sumtim`): non-negative with
+    a two-digit printed exponent -/
+def Fits15_9 (r : Rat) : Prop := 0 ≤ r ∧ (printedExp 9 r).natAbs < 100
+
+instance (r : Rat) : Decidable (Fits20_13 r) := by unfold Fits20_13; exact inferInstance
+instance (r : Rat) : Decidable (Fits15_9 r) := by unfold Fits15_9; exact inferInstance
+
+/-- the real fields of the block record and of both timing records are `15.9e`, a value field is
+    `20.13e` (`decide` over the regenerated table) -/
+theorem real_field_shapes :
+    (theLayout.v.prec.getD 6 = 13 ∧ theLayout.v.width = 13 + 7) ∧
+    ∀ f ∈ [theLayout.por, theLayout.k1, theLayout.k2, theLayout.k3,
+            (timingLayout theSpecs.timing).tstart, (timingLayout theSpecs.timing).sumtim,
+            (timingLayout theSpecs.timingTr).tstart, (timingLayout theSpecs.timingTr).sumtim],
+      f.typ = 'e' ∧ f.prec.getD 6 = 9 ∧ f.width = 9 + 6 := by
+  constructor <;> decide +kernel
+
+/-- **Exact class, primary variables**: a variable is written with all 13 decimals iff it is in `Fits20_13` -/
+theorem variable_full_precision_iff (v : Val) :
+    FullPrec theLayout.v v ↔ ∀ r, v = .real r → Fits20_13 r :=
+  fullPrec_p7_iff layout_ok.v_e real_field_shapes.1.1 (by decide) real_field_shapes.1.2 v
+
+/-- **Exact class, 15.9e fields**: written with all 9 decimals iff in `Fits15_9` -/
+theorem field15_full_precision_iff {f : FieldSpec}
+    (hf : f ∈ [theLayout.por, theLayout.k1, theLayout.k2, theLayout.k3,
+            (timingLayout theSpecs.timing).tstart, (timingLayout theSpecs.timing).sumtim,
+            (timingLayout theSpecs.timingTr).tstart, (timingLayout theSpecs.timingTr).sumtim]) (v : Val) :
+    FullPrec f v ↔ ∀ r, v = .real r → Fits15_9 r :=
+  have h := real_field_shapes.2 f hf
+  fullPrec_p6_iff h.1 h.2.1 (by decide) h.2.2 v
+
+/-- **A sufficient condition purely on the magnitude**: `r = 0` or `10⁻⁹⁹ ≤ |r| < 10⁹⁹` (any sign), or
+    `r ≥ 0` and (`r = 0` or `10⁻⁹⁹⁹ ≤ r < 10⁹⁹⁹`) — the latter contains every non-negative double -/
+theorem fits20_13_of_magnitude (r : Rat) (h : InDecades 99 99 r ∨ (0 ≤ r ∧ InDecades 999 999 r)) : Fits20_13 r := by
+  unfold Fits20_13
+  rcases h with h | ⟨h0, h⟩
+  · have := printedExp_natAbs_lt 13 99 99 2 r h (by decide) (by decide)
+    by_cases hr : r < 0
+    · exact Or.inr ⟨hr, this⟩
+    · exact Or.inl ⟨Rat.not_lt.mp hr, by omega⟩
+  · exact Or.inl ⟨h0, printedExp_natAbs_lt 13 999 999 3 r h (by decide) (by decide)⟩
+
+theorem fits15_9_of_magnitude (r : Rat) (h0 : 0 ≤ r) (h : InDecades 99 99 r) : Fits15_9 r :=
+  ⟨h0, printedExp_natAbs_lt 9 99 99 2 r h (by decide) (by decide)⟩
+
+/-- every real of `x` that is written lies in the value class of its field -/
+structure ValuesFit (x : Incon Val) (reset : Bool) : Prop where
+  vars : ∀ b ∈ x.blocks, ∀ v ∈ b.vars, ∀ r, v = .real r → Fits20_13 r
+  por : ∀ b ∈ x.blocks, ∀ r, b.porosity = .real r → Fits15_9 r
+  perm : ∀ b ∈ x.blocks, ∀ k, b.permeability = some k →
+    (∀ r, k.1 = .real r → Fits15_9 r) ∧ (∀ r, k.2.1 = .real r → Fits15_9 r) ∧ (∀ r, k.2.2 = .real r → Fits15_9 r)
+  timing : ∀ t, x.timing = some t → reset = false →
+    (∀ r, t.tstart = .real r → Fits15_9 r) ∧ (∀ r, t.sumtim = .real r → Fits15_9 r)
+
+/-- when the long header is written, its `12.6e` time is the same text for the in-memory `sumtim`
+    and for the value re-read from the `15.9e` timing record (fails only through double rounding:
+    `excluded_header_double_rounding`) -/
+def HeaderStable (rf : ReadFn) (x : Incon Val) (reset : Bool) : Prop :=
+  ∀ t, x.timing = some t → reset = false → ∀ s,
+    writeField (fieldAt theSpecs.headerLong 3) t.sumtim = .ok s →
+    writeField (fieldAt theSpecs.headerLong 3)
+      (back rf (if x.simulator = TOUGHREACT then timingLayout theSpecs.timingTr else timingLayout theSpecs.timing).sumtim
+        t.sumtim) = .ok s
+
+theorem timing_fields_15_9 (x : Incon Val) :
+    (if x.simulator = TOUGHREACT then timingLayout theSpecs.timingTr else timingLayout theSpecs.timing).tstart ∈
+      [theLayout.por, theLayout.k1, theLayout.k2, theLayout.k3,
+        (timingLayout theSpecs.timing).tstart, (timingLayout theSpecs.timing).sumtim,
+        (timingLayout theSpecs.timingTr).tstart, (timingLayout theSpecs.timingTr).sumtim] ∧
+    (if x.simulator = TOUGHREACT then timingLayout theSpecs.timingTr else timingLayout theSpecs.timing).sumtim ∈
+      [theLayout.por, theLayout.k1, theLayout.k2, theLayout.k3,
+        (timingLayout theSpecs.timing).tstart, (timingLayout theSpecs.timing).sumtim,
+        (timingLayout theSpecs.timingTr).tstart, (timingLayout theSpecs.timingTr).sumtim] := by
+  split <;> simp
+
+/-- **`NoPrecisionLost` characterised**: it holds exactly when every written real lies in the value
+    class of its field (`ValuesFit`, a condition on the values, not on the written text) and the
+    header time is stable -/
+theorem no_precision_lost_iff (rf : ReadFn) (x : Incon Val) (reset : Bool) :
+    NoPrecisionLost rf x reset ↔ (ValuesFit x reset ∧ HeaderStable rf x reset) := by
+  have hpor := fun v => field15_full_precision_iff (f := theLayout.por) (by simp) v
+  have hk1 := fun v => field15_full_precision_iff (f := theLayout.k1) (by simp) v
+  have hk2 := fun v => field15_full_precision_iff (f := theLayout.k2) (by simp) v
+  have hk3 := fun v => field15_full_precision_iff (f := theLayout.k3) (by simp) v
+  have hts := fun v => field15_full_precision_iff (timing_fields_15_9 x).1 v
+  have hst := fun v => field15_full_precision_iff (timing_fields_15_9 x).2 v
+  constructor
+  · intro h
+    refine ⟨⟨?_, ?_, ?_, ?_⟩, ?_⟩
+    · intro b hb v hv; exact (variable_full_precision_iff v).mp ((h.blocks b hb).vars v hv)
+    · intro b hb; exact (hpor _).mp (h.blocks b hb).por
+    · intro b hb k hk
+      obtain ⟨a1, a2, a3⟩ := (h.blocks b hb).perm k hk
+      exact ⟨(hk1 _).mp a1, (hk2 _).mp a2, (hk3 _).mp a3⟩
+    · intro t ht hr
+      obtain ⟨a1, a2, _⟩ := h.timing t ht hr
+      exact ⟨(hts _).mp a1, (hst _).mp a2⟩
+    · intro t ht hr; exact (h.timing t ht hr).2.2
+  · intro ⟨hv, hh⟩
+    refine ⟨?_, ?_⟩
+    · intro b hb
+      refine ⟨?_, (hpor _).mpr (hv.por b hb), ?_⟩
+      · intro v hvm; exact (variable_full_precision_iff v).mpr (hv.vars b hb v hvm)
+      · intro k hk
+        obtain ⟨a1, a2, a3⟩ := hv.perm b hb k hk
+        exact ⟨(hk1 _).mpr a1, (hk2 _).mpr a2, (hk3 _).mpr a3⟩
+    · intro t ht hr
+      obtain ⟨a1, a2⟩ := hv.timing t ht hr
+      exact ⟨(hts _).mpr a1, (hst _).mpr a2, hh t ht hr⟩
+
+/-- **Writing it again reproduces the file, hypothesis on the values** (`_partial`: `InconWF` as in
+    `incon_roundtrip_partial`; the reals outside `ValuesFit` are the class witnessed by
+    `excluded_reduced_precision_carry`; `HeaderStable` fails only as in `excluded_header_double_rounding`). -/
+theorem incon_write_fixpoint_values_partial (rf : ReadFn) (x : Incon Val) (nvars : Option Nat) (check reset : Bool)
+    (hwf : InconWF x nvars) (hv : ValuesFit x reset) (hh : HeaderStable rf x reset) {file : List Str}
+    (hw : write theSpecs x reset = .ok file) :
+    ∃ y, read rf theSpecs TOUGH2 nvars check file = .ok y ∧
+      write theSpecs (y.mapVals pvalToVal) reset = .ok file :=
+  incon_write_fixpoint_partial rf x nvars check reset hwf ((no_precision_lost_iff rf x reset).mpr ⟨hv, hh⟩) hw
+
+/-- without restart timing in the file (no timing, or `reset`) the header is the short one and only
+    the value classes remain -/
+theorem incon_write_fixpoint_untimed_partial (rf : ReadFn) (x : Incon Val) (nvars : Option Nat) (check reset : Bool)
+    (hwf : InconWF x nvars) (hv : ValuesFit x reset) (hnt : x.timing = none ∨ reset = true) {file : List Str}
+    (hw : write theSpecs x reset = .ok file) :
+    ∃ y, read rf theSpecs TOUGH2 nvars check file = .ok y ∧
+      write theSpecs (y.mapVals pvalToVal) reset = .ok file :=
+  incon_write_fixpoint_values_partial rf x nvars check reset hwf hv
+    (by intro t ht hr; rcases hnt with h | h
+        · rw [h] at ht; cases ht
+        · rw [h] at hr; cases hr) hw
+
+-- non-vacuity: the example object (a negative variable, one with a 3-digit exponent) is in the value classes
+example : ValuesFit exIncon false ∧ (exIncon.timing = none ∨ false = true) := by
+  refine ⟨⟨?_, ?_, ?_, ?_⟩, Or.inl rfl⟩
+  · intro b hb v hv r hr
+    simp only [exIncon, List.mem_singleton] at hb
+    subst hb
+    simp only [exBlock, List.mem_cons, List.not_mem_nil, or_false] at hv
+    rcases hv with rfl | rfl <;> cases hr <;> decide +kernel
+  · intro b hb r hr
+    simp only [exIncon, List.mem_singleton] at hb
+    subst hb
+    cases hr
+    decide +kernel
+  · intro b hb k hk
+    simp only [exIncon, List.mem_singleton] at hb
+    subst hb
+    cases hk
+  · intro t ht; cases ht
+example : InDecades 99 99 (-2600) ∧ (0 ≤ mkRat 1 (10 ^ 100) ∧ InDecades 999 999 (mkRat 1 (10 ^ 100))) ∧
+    ¬ Fits20_13 exCarry := by decide +kernel
+
+/-- an object with restart timing whose header time is stable -/
+def exTimed : Incon Val :=
+  { exIncon with timing := some { kcyc := .int 12, iter := .int 3, nm := .none, tstart := .real 0,
+                                  sumtim := .real (mkRat 31557600 1) } }
+example : HeaderStable .fortran exTimed false := by
+  intro t ht _ s hs
+  cases ht
+  have h1 : writeField (fieldAt theSpecs.headerLong 3) (Val.real (mkRat 31557600 1)) = .ok "3.155760e+07".toList := by
+    decide +kernel
+  rw [h1] at hs
+  cases hs
+  decide +kernel
+
+/-! ### the text of the file: universal newlines -/
+
+theorem header_types : HeaderTypes theSpecs (fieldAt theSpecs.headerLong 0) (fieldAt theSpecs.headerLong 1)
+    (fieldAt theSpecs.headerLong 2) (fieldAt theSpecs.headerLong 3) :=
+  ⟨by decide +kernel, by decide +kernel, by decide +kernel, by decide +kernel, by decide +kernel⟩
+
+/-- **Every written line is clean**: for a well-formed `x`, each line `write` emits is some text
+    without `'\n'` or `'\r'` followed by exactly one `'\n'` (numbers print as digits, sign, `.`, `e`,
+    blanks; a name accepted by `valid_blockname` consists of characters of the three generated
+    tables, none of which is a line end) — so the lines can be recovered from the text. -/
+theorem written_lines_clean (x : Incon Val) (nvars : Option Nat) (reset : Bool)
+    (hwf : InconWF x nvars) {file : List Str} (hw : write theSpecs x reset = .ok file) :
+    ∀ l ∈ file, CleanLine l :=
+  write_clean layout_ok timing_ok timing_toughreact_ok header_ok header_types x nvars reset hwf hw
+
+/-- **Line ends do not matter** (`_partial` only through `InconWF`, as `incon_roundtrip_partial`).
+    The text of the written file (`file.flatten`) is split by text-mode reading (`splitLines`:
+    `"\r\n"` and `'\r'` are translated to `'\n'`, then the text is cut after each `'\n'`) into
+    exactly the lines `write` produced, and so is the same text with every `'\n'` replaced by
+    `"\r\n"` (`crlf`, a file that went through a DOS tool) or by `'\r'` (`crOnly`); hence `read` of
+    any of the three texts returns `canon x reset`. -/
+theorem read_any_line_ends_partial (rf : ReadFn) (x : Incon Val) (nvars : Option Nat) (check reset : Bool)
+    (hwf : InconWF x nvars) {file : List Str} (hw : write theSpecs x reset = .ok file) :
+    splitLines file.flatten = file ∧
+    read rf theSpecs TOUGH2 nvars check (splitLines file.flatten) = .ok (canon rf x reset) ∧
+    read rf theSpecs TOUGH2 nvars check (splitLines (crlf file.flatten)) = .ok (canon rf x reset) ∧
+    read rf theSpecs TOUGH2 nvars check (splitLines (crOnly file.flatten)) = .ok (canon rf x reset) := by
+  obtain ⟨h1, h2, h3⟩ := splitLines_clean file (written_lines_clean x nvars reset hwf hw)
+  have h := incon_roundtrip_partial rf x nvars check reset hwf hw
+  rw [h1, h2, h3]
+  exact ⟨rfl, h, h, h⟩
+
+/-- the second generation too: the object read from the CRLF text is written as the original lines -/
+theorem write_fixpoint_any_line_ends_partial (rf : ReadFn) (x : Incon Val) (nvars : Option Nat) (check reset : Bool)
+    (hwf : InconWF x nvars) (hv : ValuesFit x reset) (hh : HeaderStable rf x reset) {file : List Str}
+    (hw : write theSpecs x reset = .ok file) :
+    ∃ y, read rf theSpecs TOUGH2 nvars check (splitLines (crlf file.flatten)) = .ok y ∧
+      write theSpecs (y.mapVals pvalToVal) reset = .ok file := by
+  obtain ⟨y, h1, h2⟩ := incon_write_fixpoint_values_partial rf x nvars check reset hwf hv hh hw
+  rw [(splitLines_clean file (written_lines_clean x nvars reset hwf hw)).2.1]
+  exact ⟨y, h1, h2⟩
+
+-- the example file (written from `exIncon`, which satisfies `InconWF`) has clean lines
+example : ∀ l ∈ ["INCON\n".toList, "ab1 7         31.000000000e-01\n".toList,
+     "-2.6000000000000e+031.0000000000000e-100\n".toList, "\n".toList, "\n".toList], CleanLine l := by
+  intro l hl
+  simp only [List.mem_cons, List.not_mem_nil, or_false] at hl
+  rcases hl with rfl | rfl | rfl | rfl | rfl
+  · exact ⟨"INCON".toList, by decide, by decide⟩
+  · exact ⟨"ab1 7         31.000000000e-01".toList, by decide, by decide⟩
+  · exact ⟨"-2.6000000000000e+031.0000000000000e-100".toList, by decide, by decide⟩
+  · exact ⟨[], by decide, by decide⟩
+  · exact ⟨[], by decide, by decide⟩
+example : crlf "a\n\nb\n".toList = "a\r\n\r\nb\r\n".toList ∧ crOnly "a\n\nb\n".toList = "a\r\rb\r".toList := by decide
+
+/-! ### well-formedness: what is redundant, what is not -/
+
+/-- `BlockWF.name5` is not an independent hypothesis: a `Canonical` name has five characters -/
+theorem canonical_name_has_5 (n : Str) (h : Canonical n) : n.length = 5 := by
+  match n, h with
+  | [_, _, _, _, _], _ => rfl
+
+/-- `BlockWF` from its independent parts (no length hypothesis) -/
+theorem blockWF_of_canonical (b : Block Val) (hc : Canonical b.block)
+    (hv : validBlockname (unfixBlockname b.block) = .ok true)
+    (hplus : (unfixBlockname b.block).take 3 ≠ ['+', '+', '+'])
+    (hne : b.vars ≠ []) (hreal : ∀ x ∈ b.vars, IsReal x) (hpor : IsRealOrNone b.porosity)
+    (hseq : IsIntOrNone b.nseq) (hadd : IsIntOrNone b.nadd)
+    (hperm : ∀ k, b.permeability = some k → IsReal k.1 ∧ IsReal k.2.1 ∧ IsReal k.2.2) : BlockWF b :=
+  ⟨canonical_name_has_5 _ hc, hc, hv, hplus, hne, hreal, hpor, hseq, hadd, hperm⟩
+
+def exPlus : Incon Val := { exIncon with blocks := [{ exBlock with block := "+++ 1".toList }] }
+
+/-- `BlockWF.noplus` is NOT redundant: `+++ 1` is canonical and accepted by `valid_blockname`
+    (`'+'` is in the table of first characters), it is written, but the reader takes its record for
+    the `+++` marker that ends the block list: the block is lost -/
+theorem excluded_plus_name :
+    Canonical "+++ 1".toList ∧ validBlockname (unfixBlockname "+++ 1".toList) = .ok true ∧
+    (write theSpecs exPlus false).toOption.isSome = true ∧
+    (write theSpecs exPlus false >>= read .fortran theSpecs TOUGH2 none true).map (fun y => y.blocks.length) ≠ .ok 1 := by
+  refine ⟨by decide, by decide +kernel, by decide +kernel, by decide +kernel⟩
+
+example : BlockWF exBlock :=
+  blockWF_of_canonical exBlock (by decide) (by decide +kernel) (by decide) (by decide)
+    (by intro x hx; simp only [exBlock, List.mem_cons, List.not_mem_nil, or_false] at hx
+        rcases hx with rfl | rfl <;> exact ⟨_, rfl⟩)
+    (Or.inr ⟨_, rfl⟩) (Or.inl rfl) (Or.inr ⟨_, rfl⟩) (by intro k h; cases h)
+
 /-
-  The theorems work on the list of lines (`write` returns them, `read` takes them); that the text
-  of the file splits back into exactly these lines (`splitLines`, universal newlines) is part of
-  the model tied by the correspondence, not proved.  On the real code the second generation is
+  The core theorems work on the list of lines (`write` returns them, `read` takes them);
+  `read_any_line_ends_partial` shows that the text of the file splits back into exactly these lines
+  (`splitLines`, universal newlines) for `\n`, `\r\n` and `\r` line ends.  That `splitLines` is what
+  Python's text mode does is part of the model tied by the correspondence.  On the real code the second generation is
   compared byte for byte with the first by the oracle and with the model (through an exact model
   of `float()` rounding, `pvalToDouble`) by the correspondence facet `incon_rewrite` on every run.
 -/
